@@ -43,6 +43,9 @@ def gfield(N, dims, starts, shape):
     return v
 
 
+MEM_CELLS = 3000    # whole-array comparison only when all ranks' arrays together have at most this many cells
+
+
 def impl_case(c):
     """c = (N, layouts, nprocs, start, walk, dtype, seed); walk = [(dest name, use_buf, back_buf)]"""
     import numpy as np
@@ -101,6 +104,8 @@ def impl_case(c):
                 dst = np.full(bs, -8, dtype=dtype)
                 buf = np.full(bs, -9, dtype=dtype) if use_buf else None
                 before = src[:la.size].copy()
+                mem0 = [int(x) for x in np.real(src)] if bs * nranks <= MEM_CELLS else None
+                src_arr = src
                 sw.transpose(src, dst, cur, nxt, buf)
                 man = mans[sw._handlers[nxt]]
                 cur_ok = (list(sw.nProcs) == list(man.nProcs) and list(sw.mpiCoords) == list(man.mpiCoords)
@@ -116,6 +121,10 @@ def impl_case(c):
                 sw.transpose(d2, back, nxt, cur, np.full(bs, -5, dtype=dtype) if back_buf else None)
                 bk, okb = ints(back[:la.size])
                 rec['back'] = bk
+                if mem0 is not None:
+                    # complete arrays before / after (real parts) for the whole-memory model (frame theorems)
+                    rec['mem0'] = mem0
+                    rec['mem'] = [[int(x) for x in np.real(arr)] if arr is not None else None for arr in (src_arr, dst, buf)]
                 rec['cplx_ok'] = rec['cplx_ok'] and okb
                 out.append(rec)
                 src = dst
@@ -327,6 +336,23 @@ def model_route(info, a, b):
     return out
 
 
+def mem_route(info, a, b):
+    """the steps of LayoutSwapper.transpose(a -> b) as the whole-memory model takes them: the handler's own route inside one
+    handler; otherwise the swapper's route, whose handler-internal steps must be direct in their handler (else None)"""
+    if a == b:
+        return []
+    ha, hb = info['handler'][a], info['handler'][b]
+    if ha == hb:
+        return list(info['hroute'][ha][a][b])
+    cur = a
+    for nxt in info['sroute'][a][b]:
+        h1, h2 = info['handler'][cur], info['handler'][nxt]
+        if h1 == h2 and len(info['hroute'][h1][cur][nxt]) != 1:
+            return None
+        cur = nxt
+    return list(info['sroute'][a][b])
+
+
 def step_kinds(info, a, route):
     topo = info['topo']
     ks = []
@@ -467,6 +493,37 @@ def run():
                               % (layouts, nprocs, got, m),
                               {'kind': 'correspondence', 'theorem': 'sw_ctor (SwapperCtor.v) / c03_ctor_axes',
                                'case': [N, layouts, nprocs, c[3], [], c[5], c[6]]}, no_input=True)
+    # whole-memory model: complete source / dest / buf arrays of every world rank after the transpose (frame theorems
+    # c03_step_frame / c03_route_frame) and the certificate that every step stays inside each rank's bufferSize
+    flines, fkeys, eok_lines, eok_keys = [], [], [], []
+    for ci, (c, r) in enumerate(zip(cases, impl)):
+        if r[0] != 'ok':
+            continue
+        N, layouts, nprocs, start, walk, dt, seed = c
+        lay = {n: l for h in layouts for n, l in h.items()}
+        res = r[1]
+        info = res[0]
+        bss = [res[w]['bs'] for w in range(len(res))]
+        cur = start
+        for k, (nxt, ub, bb) in enumerate(walk):
+            prev, cur = cur, nxt
+            if any('mem' not in res[w]['out'][k] for w in range(len(res))):
+                continue
+            mr = mem_route(info, prev, nxt)
+            if mr is None:
+                continue
+            nodes = ' / '.join(node_str(info, lay, x) for x in [prev] + mr)
+            head = '%s | %s | %s' % (' '.join(map(str, N)), ' '.join(map(str, info['topo'])), nodes)
+            srcs = ' ; '.join(' '.join(map(str, res[w]['out'][k]['mem0'])) for w in range(len(res)))
+            dsts = ' ; '.join(' '.join(['-8'] * bss[w]) for w in range(len(res)))
+            bufs = ' ; '.join(' '.join(['-9'] * bss[w]) for w in range(len(res)))
+            flines.append('smtr %s | %d 0 ; %s ;; %s ;; %s' % (head, 1 if ub else 0, srcs, dsts, bufs))
+            fkeys.append((ci, k))
+            if mr:
+                eok_lines.append('smok %s | %s' % (head, ' '.join(map(str, bss))))
+                eok_keys.append((ci, k))
+    fres = dict(zip(fkeys, core.model_parallel(flines, timeout=3000)))
+    eres = dict(zip(eok_keys, core.model_parallel(eok_lines)))
     mres = dict(zip(mkeys, core.model_parallel(mlines, timeout=3000)))
     okres = dict(zip([(a, b) for (a, b, _, _, _) in okkeys], core.model_parallel(oklines)))
     okinfo = {(a, b): (x, y, rt) for (a, b, x, y, rt) in okkeys}
@@ -577,6 +634,37 @@ def run():
                               % (desc, k, cur, nxt, route, m[:80]),
                               dict(rep1, kind='correspondence', theorem='c03_route_correct / sw_run_route'), no_input=True)
             cur = nxt
+    frame_cmp = 0
+    for (ci, k), m in fres.items():
+        N, layouts, nprocs, start, walk, dt, seed = cases[ci]
+        res = impl[ci][1]
+        if any(res[w]['out'][k]['dest'] != res[w]['out'][k]['expect'] for w in range(len(res))):
+            continue            # reported above with its failing input
+        frame_cmp += 1
+        nxt, ub, bb = walk[k]
+        groups = [g.strip() for g in m.split(';;')]
+        for gi, nm in enumerate(('source', 'dest', 'buf')):
+            if nm == 'buf' and not ub:
+                continue
+            got = ' ; '.join(' '.join(map(str, res[w]['out'][k]['mem'][gi])) for w in range(len(res)))
+            if len(groups) != 3 or groups[gi].split() != got.split():
+                chk.cov['disagreements_checked'] += 1
+                chk.violation('layout.LayoutSwapper.transpose:%s-array-differs-from-memory-model' % nm,
+                              'N=%r layouts=%r nprocs=%r start=%s walk=%r step %d (-> %s, buffer=%s): the %s arrays after the transpose are %s, '
+                              'the whole-memory model (sw_m_transpose) gives %s'
+                              % (N, layouts, nprocs, start, walk, k, nxt, ub, nm, got[:200], (groups[gi] if len(groups) == 3 else m)[:200]),
+                              {'kind': 'correspondence', 'theorem': 'c03_step_frame / c03_route_frame (sw_m_transpose)',
+                               'case': [N, layouts, nprocs, start, [list(x) for x in walk], dt, seed], 'step': k}, no_input=True)
+                break
+    for (ci, k), ok in eres.items():
+        chk.cov['certificates_checked'] += 1
+        if ok != '1':
+            N, layouts, nprocs, start, walk, dt, seed = cases[ci]
+            chk.violation('layout.LayoutSwapper:step-extent-exceeds-bufferSize',
+                          'N=%r layouts=%r nprocs=%r start=%s walk=%r step %d: a step of the route needs more cells than bufferSize %r '
+                          '(sw_m_route_ok false)' % (N, layouts, nprocs, start, walk, k, [x['bs'] for x in impl[ci][1]]),
+                          {'kind': 'certificate', 'theorem': 'c03_route_frame (sw_m_route_ok with E = bufferSize)',
+                           'case': [N, layouts, nprocs, start, [list(x) for x in walk], dt, seed], 'step': k}, no_input=True)
     # certificate: every route the implementation took consists of steps acceptable to the theorem
     for (ci, k), ok in okres.items():
         chk.cov['certificates_checked'] += 1
@@ -625,18 +713,19 @@ def run():
     chk.assumptions += ['numpy view/reshape/transpose/slice assignment semantics (read into gather form in ScatterStep.v / GatherStep.v)',
                         'simulated MPI: Create_cart row-major, Sub communicators identified with topology axes, Allgather = blocks in rank order',
                         'Layout.mpi_starts / mpi_lengths follow bstart / blen (C02; re-checked here on every rank of every configuration)',
-                        'write sets of the single steps (source untouched when a buffer is given) are exercised on every case, not proved']
+                        'the whole-memory model passes the arrays to Allgather / unpack / slice assignment exactly as _transpose and _transpose_source_intact do; '
+                        'the complete source / dest / buf arrays are compared with it on every case small enough']
     return chk.finish(proof,
                       rule='fullSimulation grouping on every grid <= %dx%d, upstream groupings (incl. the 4-D two-handler family), seeded random '
                            'groupings (2-D handler + 1-D handlers + serial handler [1]/[1,1]) accepted by the constructor; 3-D extents 1-7, 4-D extents 1-5 (1-7 in a fifth of the cases), '
                            'process counts <= extents; walks of 1-6 transposes, buffer or not, float/complex; non-trivial = different layouts on more '
                            'than one rank; distinct = (shape, grouping, grid, source, dest, buffer, dtype)' % ((3, 3) if chk.tier == 'quick' else (4, 4)),
-                      extra={'rejected_by_constructor': rejected, 'coq_eval_cross_checks': len(terms) + len(sample_terms)},
+                      extra={'rejected_by_constructor': rejected, 'coq_eval_cross_checks': len(terms) + len(sample_terms), 'whole_array_comparisons': frame_cmp},
                       uncovered=['the constructor model sw_ctor (choice of topology axes) is tied by the differential only; the steps do not rely on it: the axes '
                                  'recovered from the implementation\'s communicators are validated by sw_step_wf_b / sw_int_wf_b on every step of every route taken',
                                  'connectivity of the layout graph / route construction (_makeConnectionMap) is C06\'s subject; routes are certificates here',
                                  'that _compatibleLayout / getAxes imply sw_step_wf_b is checked per route (certificate), not proved',
-                                 'frame of a single step (which cells of source/dest/buf are written; padding) is tested, not proved',
+                                 'that the extent of every step is at most the bufferSize of the rank is checked per route (sw_m_route_ok with E = bufferSize), not proved',
                                  'process counts larger than the extent they distribute (empty blocks) are not generated'])
 
 
